@@ -22,7 +22,7 @@ EXHAUSTIVE = {"quick": False, "thorough": False}
 NSHARDS = {"quick": 16, "thorough": 16}
 THRESHOLDS = {"quick": {"c16:collections": 800, "c16:index-checks": 3000, "c16:vec-exhaustive": 363, "c16:zero-first": 50,
                         "c16:zero-middle": 50, "c16:zero-last": 50, "c16:repeated-zeros": 50, "c16:mixed-grid": 100,
-                        "c16:np-int-index": 300, "c16:long-members": 30, "c16:many-members": 6, "c16:shared-member-names": 60, "c16:index-checks-second-pass": 2000}}
+                        "c16:np-int-index": 300, "c16:long-members": 30, "c16:caller-list-mutated": 500, "c16:many-members": 6, "c16:shared-member-names": 60, "c16:index-checks-second-pass": 2000}}
 THRESHOLDS["thorough"] = dict(THRESHOLDS["quick"])
 ANCHORS = ["maze_dataset.dataset.collected_dataset:MazeDatasetCollection.__getitem__",
            "maze_dataset.dataset.collected_dataset:MazeDatasetCollection.__len__",
@@ -59,7 +59,8 @@ def check_vector(ctx, lengths, grids, rng, tag):
             cfg = MazeDatasetConfig(name=("m" if shared and j % 3 != 2 else f"m{j}"), grid_n=n, n_mazes=L)
             members.append(MazeDataset(cfg, [_maze(n, rng) for _ in range(L)]))
         ccfg = MazeDatasetCollectionConfig(name="col", maze_dataset_configs=[m.cfg for m in members])
-        col = MazeDatasetCollection(ccfg, members)
+        callers_list = list(members)  # the list object handed to the constructor stays the caller's
+        col = MazeDatasetCollection(ccfg, callers_list)
         ctx.tally("c16:collections")
         flat = [mz for m in members for mz in m.mazes]
         total = sum(lengths)
@@ -94,6 +95,21 @@ def check_vector(ctx, lengths, grids, rng, tag):
                     continue
                 if item is not flat[i]:
                     ctx.violation("C16/getitem-wrong-object", f"second pass: col[{i}] is not the object at flat position {i}", dict(case, index=i))
+        # the caller goes on using its own list (appends a member, reorders, clears): the collection built earlier is unaffected
+        if len(members) >= 1 and tag != "many":
+            extra = MazeDataset(MazeDatasetConfig(name="later", grid_n=2, n_mazes=1), [_maze(2, rng)])
+            how = int(rng.integers(3))
+            if how == 0:
+                callers_list.append(extra)
+            elif how == 1:
+                callers_list.reverse(); callers_list.append(extra)
+            else:
+                callers_list.clear()
+            ctx.tally("c16:caller-list-mutated")
+            ok = len(col) == total and list(col.dataset_lengths) == list(lengths) and col.cfg.n_mazes == total and \
+                all(col[i] is flat[i] for i in range(0, total, max(1, total // 7)))
+            ctx.check(ok, "C16/collection-follows-callers-list-after-construction",
+                      f"after the caller changed its own list: len={len(col)} (was {total}), dataset_lengths={list(col.dataset_lengths)[:8]} (was {list(lengths)[:8]})", case)
         # after update_self_config the counts must still agree
         col.update_self_config()
         ctx.check(col.cfg.n_mazes == total and len(col) == total, "C16/after-update_self_config-disagree",
